@@ -3,7 +3,7 @@
 From Coq Require Import List Bool Arith Reals Lra Sorted Permutation.
 Import ListNotations.
 From PS Require Import Num RLemmas Valid ModelKernels ModelFuncs ModelAPI Spec Lem_Multi Lem_MultiAPI.
-From PS Require Import Lem_API Lem_WF Lem_API2 Lem_API3 Lem_API4 Lem_API5 Lem_API7.
+From PS Require Import Lem_API Lem_WF Lem_API2 Lem_API3 Lem_API4 Lem_API5 Lem_API7 Lem_API12.
 Require Import PS.Props.PropTac.
 Local Open Scope R_scope.
 
@@ -141,6 +141,19 @@ Theorem C06_spike_distance_multi_mean_idx : forall eps cy m ri iv l idx ts te,
         / INR (length (pairs_of (ixs l idx)))).
 Proof. exact spike_distance_multi_mean_idx. Qed.
 Print Assumptions C06_spike_distance_multi_mean_idx.
+
+(* ---- from Lem_API12.v: the SPIKE profile does not depend on the order of the trains either - REPRESENTATION equality
+   (same breakpoints, same y1 / y2 arrays), for the whole list and for every admissible index selection ---- *)
+Theorem C06_spike_profile_order_independent : forall eps cy m ri ts te (l l' : list (@train R)),
+  (2 <= length l)%nat -> Forall (Lem_MultiAPI2.wtrain ts te) l -> Permutation l l' ->
+  spike_profile_multi ROps eps cy false m ri l None = spike_profile_multi ROps eps cy false m ri l' None.
+Proof. exact spike_multi_profile_perm. Qed.
+Print Assumptions C06_spike_profile_order_independent.
+Theorem C06_spike_profile_selection_order_independent : forall eps cy m ri ts te (l : list (@train R)) ix ix',
+  (2 <= length ix)%nat -> Forall (Lem_MultiAPI2.wtrain ts te) l -> Forall (fun i => (i < length l)%nat) ix -> Permutation ix ix' ->
+  spike_profile_multi ROps eps cy false m ri l (Some ix) = spike_profile_multi ROps eps cy false m ri l (Some ix').
+Proof. exact spike_multi_profile_idx_perm. Qed.
+Print Assumptions C06_spike_profile_selection_order_independent.
 
 Example C06_nonvacuous : Forall (mtrain 0 1) [([1/8; 1/2], 0, 1); ([1/8], 0, 1); ([], 0, 1); ([1/8; 1/2], 0, 1)].
 Proof. repeat (first [apply Forall_nil | apply Forall_cons]); unfold mtrain; cbn [tr_spikes tr_start tr_end fst snd]; repeat split; try lra; valid_tac. Qed.
